@@ -17,7 +17,7 @@ import metric_learn as ml
 PID = 'C14'
 LEVEL = 'model_checking'
 RULE = ('MMC x init {identity, covariance, random, SPD array (C order), the same array in Fortran order} x budgets max_iter = 1..K '
-        '(K = 8 quick / 30 thorough) x datasets, each state also reached by a second fit of the same object; diagonal=True x '
+        '(K = 8 quick / 30 thorough) x tol {1e-3, 1e-6} x datasets, each state also reached by a second fit of the same object; diagonal=True x '
         'diagonal_c {0.5, 1, 10} x init x budgets; MMC_Supervised x init x seeds; state = (configuration, budget); '
         'non-trivial = learned matrix differs from the initial matrix')
 ASSUMPTIONS = ['Budget t = (sum over similar pairs of d^2 under the initial matrix) / 100, with the initial matrix rebuilt '
@@ -116,50 +116,52 @@ def run_case(spec):
     if kind == 'full':
         site = 'MMC.fit'
         tr = ['init=' + ini]
-        prev = None
         W = np.einsum('ij,ik->jk', pos_diff, pos_diff)
         t = W.ravel().dot(A0.ravel()) / 100.0
-        for mi in range(1, K + 1):
-            est = ml.MMC(init=iv, max_iter=mi, random_state=1)
-            try:
-                est.fit(P.copy(), y.copy())
-            except Exception as e:
-                viol.append(V(site, 'raises', 'fit raised %s: %s' % (type(e).__name__, str(e)[:120]), tr))
-                break
-            evals += 1
-            states += 1
-            trans += 1
-            if isinstance(iv, np.ndarray) and not np.array_equal(iv, pristine):
-                viol.append(V(site, 'mutates_init', 'the init array was modified by fit', tr))
-                iv = pristine.copy(order='K')
-            M = est.get_mahalanobis_matrix()
-            g = judge_full(site, M, A0, pos_diff, neg_diff, tr + ['max_iter=%d' % mi], viol, stats)
-            if g is None:
-                break
-            if prev is not None and g < prev - 1e-9 * (1 + abs(prev)):
-                viol.append(V(site, 'objective_decreases_with_budget', 'dissimilar-pair objective falls from %.10g to %.10g when max_iter goes to %d: '
-                              'the result is not the last feasible improving iterate' % (prev, g, mi), tr))
-            prev = g
-            if mi == 1:
-                R, margin = reference_projection(A0, W, t)
-                if margin < 1e-9:
-                    amb += 1
-                else:
-                    res = np.abs(M - R).max() / max(np.abs(R).max(), 1e-300)
-                    stats['worst_projection_residual'] = max(stats['worst_projection_residual'], res)
-                    if res > 1e-7:
-                        viol.append(V(site, 'not_projection_of_init', 'with one iteration the result differs from the alternating projection of the '
-                                      '%s initial matrix onto {budget} and {PSD} by %.3g relative' % (ini, res), tr))
-            if mi == 2:       # the same state reached by a second fit of the same object
-                est.fit(P.copy(), y.copy())
-                evals += 1
-                trans += 1
-                if not np.array_equal(est.get_mahalanobis_matrix(), M):
-                    viol.append(V(site, 'refit_differs', 'a second fit of the same object gives another matrix (budget no longer relative to the '
-                                  'given init)', tr + ['refit']))
-                judge_full(site, est.get_mahalanobis_matrix(), A0, pos_diff, neg_diff, tr + ['refit'], viol, stats)
-            if np.abs(M - A0).max() > 1e-9:
-                sigs.add((dsn, ini, mi, round(float(g), 6)))
+        for tol_ in (1e-3, 1e-6):
+          tr = ['init=' + ini, 'tol=%g' % tol_]
+          prev = None
+          for mi in range(1, K + 1):
+              est = ml.MMC(init=iv, max_iter=mi, tol=tol_, random_state=1)
+              try:
+                  est.fit(P.copy(), y.copy())
+              except Exception as e:
+                  viol.append(V(site, 'raises', 'fit raised %s: %s' % (type(e).__name__, str(e)[:120]), tr))
+                  break
+              evals += 1
+              states += 1
+              trans += 1
+              if isinstance(iv, np.ndarray) and not np.array_equal(iv, pristine):
+                  viol.append(V(site, 'mutates_init', 'the init array was modified by fit', tr))
+                  iv = pristine.copy(order='K')
+              M = est.get_mahalanobis_matrix()
+              g = judge_full(site, M, A0, pos_diff, neg_diff, tr + ['max_iter=%d' % mi], viol, stats)
+              if g is None:
+                  break
+              if prev is not None and g < prev - 1e-9 * (1 + abs(prev)):
+                  viol.append(V(site, 'objective_decreases_with_budget', 'dissimilar-pair objective falls from %.10g to %.10g when max_iter goes to %d: '
+                                'the result is not the last feasible improving iterate' % (prev, g, mi), tr))
+              prev = g
+              if mi == 1:
+                  R, margin = reference_projection(A0, W, t)
+                  if margin < 1e-9:
+                      amb += 1
+                  else:
+                      res = np.abs(M - R).max() / max(np.abs(R).max(), 1e-300)
+                      stats['worst_projection_residual'] = max(stats['worst_projection_residual'], res)
+                      if res > 1e-7:
+                          viol.append(V(site, 'not_projection_of_init', 'with one iteration the result differs from the alternating projection of the '
+                                        '%s initial matrix onto {budget} and {PSD} by %.3g relative' % (ini, res), tr))
+              if mi == 2:       # the same state reached by a second fit of the same object
+                  est.fit(P.copy(), y.copy())
+                  evals += 1
+                  trans += 1
+                  if not np.array_equal(est.get_mahalanobis_matrix(), M):
+                      viol.append(V(site, 'refit_differs', 'a second fit of the same object gives another matrix (budget no longer relative to the '
+                                    'given init)', tr + ['refit']))
+                  judge_full(site, est.get_mahalanobis_matrix(), A0, pos_diff, neg_diff, tr + ['refit'], viol, stats)
+              if np.abs(M - A0).max() > 1e-9:
+                  sigs.add((dsn, ini, tol_, mi, round(float(g), 6)))
         return dict(evals=evals, sigs=sigs, viol=viol, states=states, transitions=trans,
                     stats={k: v for k, v in stats.items() if not k.startswith('worst_')},
                     headroom={k: v for k, v in stats.items() if k.startswith('worst_')}, ambiguous=amb,
